@@ -1174,6 +1174,35 @@ func c05truncCases() []c05truncCase {
 			}
 		}
 	}
+	// key-mgmt values whose MIKEY message is cut short at every BYTE of its binary form, for
+	// messages announcing 1 .. 255 crypto sessions (sizes computed from such counts must not
+	// wrap): why="mikey_truncated"
+	for di, doc := range c05docs {
+		for li, l := range strings.Split(doc, "\n") {
+			if !strings.HasPrefix(l, "a=key-mgmt:mikey ") {
+				continue
+			}
+			at := len("a=key-mgmt:mikey ")
+			for _, ncs := range []int{1, 28, 29, 30, 57, 114, 255} {
+				m := c05mikey(2, ncs)
+				for i := 1; i < ncs; i++ {
+					m.Header.CSIDMapInfo = append(m.Header.CSIDMapInfo,
+						mikey.SRTPIDEntry{PolicyNo: uint8(i), SSRC: uint32(i) * 0x01010101, ROC: uint32(i)})
+				}
+				bin, err := m.Marshal()
+				if err != nil {
+					continue
+				}
+				for cut := 0; cut <= len(bin); cut++ {
+					if ncs > 30 && cut > 40 && cut%7 != 0 && cut < len(bin)-40 {
+						continue // long entry tables: every 7th length in the middle
+					}
+					c05truncAll = append(c05truncAll, c05truncCase{di, li, at, len(l),
+						base64.StdEncoding.EncodeToString(bin[:cut]), "mikey_truncated"})
+				}
+			}
+		}
+	}
 	return c05truncAll
 }
 
